@@ -42,11 +42,11 @@ CLAIMS = {
    design="3.C08", technique=T),
  "C09": dict(
    text="Deductive proof (server half): AuthSession.Auth and sasl.Server.Next stubs require authAllowed (TLS or AllowInsecureAuth), a prior greeting and !didAuth at every real call site; handleAuth ensures didAuth changes only to true and only together with a 235, refusal codes for missing greeting / repeated AUTH / insecure connection without any mechanism call; STARTTLS erases didAuth.",
-   note=COMMON_NOTE + "Assumed: base64 stubs. The client half (Client.Auth) is not yet under contract in this revision.",
+   note=COMMON_NOTE + "Assumed: base64 stubs. Client half: Auth keeps in step with the server (every line written has had its reply read at each loop iteration, one line per step), lines are CR/LF-free.",
    design="3.C09", technique=T),
  "C10": dict(
    text="Deductive proof (server half): handleStartTLS accepted only when TLS is configured and not active (tls.Server stub preconditions), success path ensures all plaintext state gone (helo, didAuth, envelope, session logged out and cleared) and a NEW textproto.Conn with a new empty bufio.Reader and a new line limiter reading from the TLS connection (store of conn before init()), refusal/failed handshake changes nothing.",
-   note=COMMON_NOTE + "Assumed: tls.Server / Handshake / textproto.NewConn stubs. The client half (startTLS, DialStartTLS, sendMail) is not yet under contract in this revision.",
+   note=COMMON_NOTE + "Assumed: tls.Server / Handshake / textproto.NewConn stubs. Client half: startTLS only if STARTTLS is in ext (initStartTLS), success switches to a new TLS transport with new buffers and forgets didHello (capabilities are renegotiated), DialStartTLS/NewClientStartTLS return no client on failure, sendMail calls Auth/SendMail only on a TLS transport. Assumed: tls.Client is lazy and fails closed.",
    design="3.C10", technique=T),
  "C04": dict(
    text="Deductive proof: (count) every handler ensures exactly one final reply per command (one per accepted recipient for LMTP DATA / BDAT LAST, plus the closing 500 when the error threshold is passed, or a failed read), counted by ghost counters maintained by writeResponse; (shape) writeResponse requires, at EVERY real call site, a reply code in 200..599, an enhanced code of the same class (or unset/absent only for greeting, EHLO, 3xx) and reply text free of C0 controls other than HT/LF and of DEL (character-class predicate, closed under concatenation/Sprintf); (attribution) the value written after DATA/BDAT is the result of this call's callback / received from this transfer's result channel (call-site and receive-site obligations). Seven echo sites fail the text clause: recorded as known findings with their witnesses.",
@@ -60,6 +60,22 @@ CLAIMS = {
    text="Deductive proof of the sequential kernel: createStatusCollector gives one slot per accepted recipient and a channel for every recipient; the emission loops of handleDataLMTP and handleBdat write exactly one final reply per accepted recipient (loop invariant replies == old + i) and the i-th reply is built from the value received from status[i] (receive-site obligation), in RCPT order; the non-LMTPSession fallback sets the single Data result for every recipient.",
    note=COMMON_NOTE + "NOT decided (the larger half of the statement): deadlock freedom, attribution under every timing of SetStatus relative to the emission loop, the k-th-status-to-k-th-occurrence mapping for duplicate recipients (channel capacities are not under contract in this revision), backend panics.",
    design="3.C13", technique=T),
+ "C14": dict(
+   text="Deductive proof of the encoder kernel: encodeXtext / encodeUTF8AddrXtext / encodeUTF8AddrUnitext emit, per input rune, the RFC 3461 / RFC 6533 form required by the statement (xchar/QCHAR sent as is; every other 7-bit octet escaped: '+' and exactly two hex digits, resp. a \\x{...} form), their output is a single ESMTP value token without CR/LF (loop invariants over a ghost strings.Builder content and character-class predicates), the client hands ENVID to the xtext encoder only inside its 7-bit printable domain and renders each option under the right keyword only if negotiated (shared with C15); server side: the decoded values flow unchanged into the options object (C11 flow).",
+   note=COMMON_NOTE + "Assumed: strings.Builder, strconv.FormatInt, strings.ToUpper, time.Format stubs. NOT covered in this revision (so not decided by this check): the inverse lemmas decoder(encoder(x)) = x, the regexp-driven decoders decodeXtext / decodeUTF8AddrXtext (trusted stubs; the planned bounded stand-in was not built), RRVS to-the-second round trip.",
+   design="3.C14", technique=T + "; per-rune loop obligations over a ghost builder"),
+ "C15": dict(
+   text="Deductive proof: textproto.Conn.Cmd stub requires the formatted line to be free of CR/LF and is called only from Client.cmd, whose own precondition is checked at every call site with the format expanded (constant formats, arguments built from validateLine'd values, proved-token-safe encoder outputs, checkNotifySet'ed keywords, switch-checked literals); every method ensures nothing written when an argument cannot be sent on one line (validateLine precedes the implicit EHLO), at most the greeting step plus one line otherwise; parameters are rendered only under has(ext, extension) with ext from the latest EHLO; a requested REQUIRETLS / SMTPUTF8 that is not offered is a local error with no MAIL line.",
+   note=COMMON_NOTE + "Assumed: fmt/textproto write exactly the formatted string; SASL mechanism names are line-safe; time.Format(RFC3339) output is line-safe.",
+   design="3.C15", technique=T + "; character-class predicates + Go-side expansion of constant formats"),
+ "C16": dict(
+   text="Deductive proof on (*dataCloser).Close and SendMail: a repeated Close is an error with no terminator written and no reply read (the writer is marked closed on entry), the first Close writes exactly one terminator and, non-LMTP, reads exactly one verdict whose error is returned; SendMail passes the sender and the recipients in the order given, one RCPT each.",
+   note=COMMON_NOTE + "Assumed: textproto's dot writer implements RFC 5321 dot-stuffing (standard library). NOT covered in this revision: the composition lemma unstuff(dotStuff(body)) = normalise(body) (server side of the trip is C01).",
+   design="3.C16", technique=T),
+ "C18": dict(
+   text="Deductive proof on (*dataCloser).Close (LMTP branch) and Rcpt/Reset: loop invariant replies read == recipients answered, exactly len(accepted recipients of this transaction) replies are read (Close returns), the status callback is called with the recipient whose reply was just read (in order), the recipients are forgotten when the transaction ends (second transaction starts empty), and without a callback the first refusal is remembered and returned.",
+   note=COMMON_NOTE + "Assumed: ReadResponse stub. The receive-order obligation uses the call ordinal of readResponse inside Close.",
+   design="3.C18", technique=T),
  "C17": dict(
    text="Deductive proof on writeResponse/writeError against a format-record abstraction of PrintfLine: the reply code on the wire is the code given (the SMTPError's own code, else the call site's generic code), a set enhanced code is written verbatim, an unset one as class.0.0 for classes 2/4/5, absent only if explicitly absent. The clause 'enhanced code on every line of a multi-line reply' fails: known finding (continuation lines carry none, the client then returns a different error).",
    note=COMMON_NOTE + "Assumed: PrintfLine writes exactly the formatted line. Not covered in this revision: the client half (toSMTPErr / ReadResponse as inverse, bounded stand-in planned), message text equality line by line.",
